@@ -65,6 +65,20 @@ def c_shockDE(chk):
             return hy, [v, [xi, T]], {"shockWave": flag}, {"hy": hy}
         paths = chk.summarize(MODULE, "Hydrodynamics.shockDE", mk, registry=eos_registry())
         rets = sel(paths)
+        from wgvc.crosscheck import Cross, poly_chain, to_native_poly, to_callable
+        cname = "csqHigh" if flag else "csqLow"
+
+        def functions(rnd, cname=cname):
+            xs, fam = poly_chain(rnd, [cname], nvars=1, deg=1)
+            e = fam[cname] * 0 + sp.Rational(rnd.randint(20, 40), 100) + xs[0] * sp.Rational(rnd.randint(0, 5), 100)
+            return ({cname: to_native_poly(xs, e)}, {cname: to_callable(xs, e)})
+
+        def scenario(env, flag=flag):
+            th = {"__stub__": "object", "methods": {"csqHighT": "csqHigh", "csqLowT": "csqLow"}}
+            return {"module": "WallGo.hydrodynamics", "method": "shockDE", "args": [env["v"], [env["xi"], env["T"]]], "kwargs": {"shockWave": flag},
+                    "self": {"__stub__": "real", "module": "WallGo.hydrodynamics", "class": "Hydrodynamics", "attrs": {"thermodynamics": th}}}
+        chk.cross(Cross(f"Hydrodynamics.shockDE.{wave}", rets, lambda rnd: {"v": rnd.uniform(0.05, 0.5), "xi": rnd.uniform(0.55, 0.9), "T": rnd.uniform(0.5, 2)},
+                        scenario, functions=functions))
         for i, p in enumerate(rets):
             eq1, eq2 = p.value
             chk.vc(f"shockDE.{wave}.dxi-dv.{i}", p.pc, Eq(eq1, spec_dxi_dv(xi, v, S["csq"](T))), func=fn)
